@@ -8,7 +8,7 @@ ID = 'C08'
 LEVEL = 'exploration'
 NEEDS = ('threads', 'proc')
 PROC_READY = True
-QUICK = dict(runs=6000, wall=80)
+QUICK = dict(runs=18000, wall=85)
 THOROUGH = dict(runs=300000, wall=1200)
 RULE = ('scenario = unbounded counter source -> buffer(n) | fifo_stream(capacity) | Stream.parmap(concurrency, thread|process); source / '
         'worker / consumer virtual delays from {0,1,10,100ms} plus starvation-weighted scheduling (fast source + stalled consumer and '
